@@ -673,3 +673,149 @@ package k8s
 //@   requires forall q v1.Protocol :: {foldEq(q, protocol)} {foldEq(protocol, q)} pts(c, q, atoiVal(port)) == anpPortsPts(ports, dst, q, atoiVal(port))
 //@   ensures agree: (c.AllowAll || (exists q v1.Protocol :: q in c.AllowedProtocols && foldEq(protocol, q) && iset(c.AllowedProtocols[q].Ports)[atoiVal(port)]))
 //@         == anpPortsCapture(ports, dst, protocol, port)
+
+// ---------------------------------------------------------------------------------------------
+// ANP / BANP rule peers (C02): a rule peer has exactly one of `namespaces` / `pods`; it matches pods only - by the labels
+// of the pod's namespace, or by those and the pod's own labels (apimachinery's verdict, A-labels); never an IP block
+// ---------------------------------------------------------------------------------------------
+
+//@ fun anpFieldsMatch(namespaces *metav1.LabelSelector, pods *apisv1a.NamespacedPod, peer Peer) bool = dyntype(peer, *PodPeer)
+//@     && (if namespaces != nil then lsMatch(valof(namespaces), unwrap(peer, *PodPeer).NamespaceObject.Labels)
+//@         else (lsMatch(pods.NamespaceSelector, unwrap(peer, *PodPeer).NamespaceObject.Labels) && lsMatch(pods.PodSelector, peerPodK(peer).Labels)))
+
+//@ func doesNamespacesFieldMatchPeer
+//@   requires namespaces != nil && realPeer(peer)
+//@   modifies *
+//@   ensures [C02] def: res1 == nil ==> res0 == (dyntype(peer, *PodPeer) && lsMatch(valof(namespaces), unwrap(peer, *PodPeer).NamespaceObject.Labels))
+
+//@ func doesPodsFieldMatchPeer
+//@   requires pods != nil && realPeer(peer)
+//@   modifies *
+//@   ensures [C02] def: res1 == nil ==> res0 == (dyntype(peer, *PodPeer) && lsMatch(pods.NamespaceSelector, unwrap(peer, *PodPeer).NamespaceObject.Labels)
+//@         && lsMatch(pods.PodSelector, peerPodK(peer).Labels))
+
+//@ func ruleFieldsSelectsPeer
+//@   requires realPeer(peer)
+//@   modifies *
+//@   ensures [C02,C19] onefield: ((namespaces == nil) == (pods == nil)) ==> res1 != nil
+//@   ensures [C02] def: res1 == nil ==> res0 == anpFieldsMatch(namespaces, pods, peer)
+
+//@ func ingressRuleSelectsPeer
+//@   requires realPeer(src)
+//@   modifies *
+//@   ensures [C02] def: res1 == nil ==> res0 == (exists i int :: {rulePeers[i]} 0 <= i && i < len(rulePeers) && anpFieldsMatch(rulePeers[i].Namespaces, rulePeers[i].Pods, src))
+//@   loop 1:
+//@     invariant none: forall i int :: {rulePeers[i]} (0 <= i && i <= rangeindex) ==> !anpFieldsMatch(rulePeers[i].Namespaces, rulePeers[i].Pods, src)
+
+//@ func egressRuleSelectsPeer
+//@   requires realPeer(dst)
+//@   modifies *
+//@   ensures [C02] def: res1 == nil ==> res0 == (exists i int :: {rulePeers[i]} 0 <= i && i < len(rulePeers) && anpFieldsMatch(rulePeers[i].Namespaces, rulePeers[i].Pods, dst))
+//@   loop 1:
+//@     invariant none: forall i int :: {rulePeers[i]} (0 <= i && i <= rangeindex) ==> !anpFieldsMatch(rulePeers[i].Namespaces, rulePeers[i].Pods, dst)
+
+// ---------------------------------------------------------------------------------------------
+// One ANP: rules in listed order, the first rule that captures a (peer, protocol, port) decides (C02)
+// ---------------------------------------------------------------------------------------------
+
+// effect of one rule on the three verdict sets: the rule's points that no earlier rule captured go to the set of its action
+//@ pred ruleApplied(pc *PolicyConnections, ports *[]apisv1a.AdminNetworkPolicyPort, dst Peer, action string, banp bool, sel bool) = forall q v1.Protocol, n int ::
+//@     {iset(pc.AllowedConns.AllowedProtocols[q].Ports)[n]} {iset(pc.DeniedConns.AllowedProtocols[q].Ports)[n]} {iset(pc.PassConns.AllowedProtocols[q].Ports)[n]}
+//@     {old(iset(pc.AllowedConns.AllowedProtocols[q].Ports)[n])} {old(iset(pc.DeniedConns.AllowedProtocols[q].Ports)[n])} {old(iset(pc.PassConns.AllowedProtocols[q].Ports)[n])}
+//@     (pts(pc.AllowedConns, q, n) == (old(pts(pc.AllowedConns, q, n)) || (sel && action == "Allow" && anpPortsPts(ports, dst, q, n) && !old(pts(pc.DeniedConns, q, n)) && !old(pts(pc.PassConns, q, n)))))
+//@     && (pts(pc.DeniedConns, q, n) == (old(pts(pc.DeniedConns, q, n)) || (sel && action == "Deny" && anpPortsPts(ports, dst, q, n) && !old(pts(pc.AllowedConns, q, n)) && !old(pts(pc.PassConns, q, n)))))
+//@     && (pts(pc.PassConns, q, n) == (old(pts(pc.PassConns, q, n)) || (sel && action == "Pass" && !banp && anpPortsPts(ports, dst, q, n) && !old(pts(pc.AllowedConns, q, n)) && !old(pts(pc.DeniedConns, q, n)))))
+//@ pred pcSame(pc *PolicyConnections) = wfPC(pc) && disjPC(pc) && pc.AllowedConns == old(pc.AllowedConns) && pc.DeniedConns == old(pc.DeniedConns) && pc.PassConns == old(pc.PassConns)
+//@ fun validAction(action string, banp bool) bool = action == "Allow" || action == "Deny" || (action == "Pass" && !banp)
+
+//@ func updatePolicyConns
+//@   requires wfPC(policyConns) && disjPC(policyConns) && realDst(dst) && dyntype(dst, *PodPeer) && validAPs(rulePorts)
+//@   modifies *
+//@   ensures [C02] wf: res == nil ==> pcSame(policyConns)
+//@   ensures [C02] applied: res == nil ==> (ruleApplied(policyConns, rulePorts, dst, action, isBANPrule, true) && validAction(action, isBANPrule))
+
+//@ func updateConnsIfIngressRuleSelectsPeer
+//@   requires wfPC(policyConns) && disjPC(policyConns) && realPeer(src) && realDst(dst) && dyntype(dst, *PodPeer) && validAPs(rulePorts)
+//@   modifies *
+//@   ensures [C02] wf: res == nil ==> pcSame(policyConns)
+//@   ensures [C02] applied: res == nil ==> ruleApplied(policyConns, rulePorts, dst, action, isBANPrule,
+//@         exists i int :: {rulePeers[i]} 0 <= i && i < len(rulePeers) && anpFieldsMatch(rulePeers[i].Namespaces, rulePeers[i].Pods, src))
+//@   ensures [C02] valid: (res == nil && (exists i int :: {rulePeers[i]} 0 <= i && i < len(rulePeers) && anpFieldsMatch(rulePeers[i].Namespaces, rulePeers[i].Pods, src))) ==> validAction(action, isBANPrule)
+//@ func updateConnsIfEgressRuleSelectsPeer
+//@   requires wfPC(policyConns) && disjPC(policyConns) && realPeer(dst) && realDst(dst) && dyntype(dst, *PodPeer) && validAPs(rulePorts)
+//@   modifies *
+//@   ensures [C02] wf: res == nil ==> pcSame(policyConns)
+//@   ensures [C02] applied: res == nil ==> ruleApplied(policyConns, rulePorts, dst, action, isBANPrule,
+//@         exists i int :: {rulePeers[i]} 0 <= i && i < len(rulePeers) && anpFieldsMatch(rulePeers[i].Namespaces, rulePeers[i].Pods, dst))
+//@   ensures [C02] valid: (res == nil && (exists i int :: {rulePeers[i]} 0 <= i && i < len(rulePeers) && anpFieldsMatch(rulePeers[i].Namespaces, rulePeers[i].Pods, dst))) ==> validAction(action, isBANPrule)
+
+// rule k of the ANP captures (q, n) between the peers; it is the first one that does
+//@ fun anpIngCap(anp *AdminNetworkPolicy, k int, src Peer, dst Peer, q string, n int) bool =
+//@     (exists i int :: {anp.Spec.Ingress[k].From[i]} 0 <= i && i < len(anp.Spec.Ingress[k].From) && anpFieldsMatch(anp.Spec.Ingress[k].From[i].Namespaces, anp.Spec.Ingress[k].From[i].Pods, src))
+//@     && anpPortsPts(anp.Spec.Ingress[k].Ports, dst, q, n)
+//@ fun anpIngFirst(anp *AdminNetworkPolicy, k int, src Peer, dst Peer, q string, n int) bool = anpIngCap(anp, k, src, dst, q, n)
+//@     && (forall j int :: {anp.Spec.Ingress[j]} (0 <= j && j < k) ==> !anpIngCap(anp, j, src, dst, q, n))
+//@ pred anpIngOK(anp *AdminNetworkPolicy) = anp != nil && (forall k int :: {anp.Spec.Ingress[k]} (0 <= k && k < len(anp.Spec.Ingress)) ==> validAPs(anp.Spec.Ingress[k].Ports))
+
+// the verdict sets after the first m rules: a point is in the set of the action of the first rule that captures it
+//@ pred anpIngVerdictA(pc *PolicyConnections, anp *AdminNetworkPolicy, m int, src Peer, dst Peer) = forall q v1.Protocol, n int :: {iset(pc.AllowedConns.AllowedProtocols[q].Ports)[n]}
+//@     pts(pc.AllowedConns, q, n) == (exists k int :: {anp.Spec.Ingress[k]} 0 <= k && k < m && anp.Spec.Ingress[k].Action == "Allow" && anpIngFirst(anp, k, src, dst, q, n))
+//@ pred anpIngVerdictD(pc *PolicyConnections, anp *AdminNetworkPolicy, m int, src Peer, dst Peer) = forall q v1.Protocol, n int :: {iset(pc.DeniedConns.AllowedProtocols[q].Ports)[n]}
+//@     pts(pc.DeniedConns, q, n) == (exists k int :: {anp.Spec.Ingress[k]} 0 <= k && k < m && anp.Spec.Ingress[k].Action == "Deny" && anpIngFirst(anp, k, src, dst, q, n))
+//@ pred anpIngVerdictP(pc *PolicyConnections, anp *AdminNetworkPolicy, m int, src Peer, dst Peer) = forall q v1.Protocol, n int :: {iset(pc.PassConns.AllowedProtocols[q].Ports)[n]}
+//@     pts(pc.PassConns, q, n) == (exists k int :: {anp.Spec.Ingress[k]} 0 <= k && k < m && anp.Spec.Ingress[k].Action == "Pass" && anpIngFirst(anp, k, src, dst, q, n))
+//@ pred anpIngVerdicts(pc *PolicyConnections, anp *AdminNetworkPolicy, m int, src Peer, dst Peer) = anpIngVerdictA(pc, anp, m, src, dst) && anpIngVerdictD(pc, anp, m, src, dst) && anpIngVerdictP(pc, anp, m, src, dst)
+
+//@ func (*AdminNetworkPolicy).GetIngressPolicyConns
+//@   hide anpFieldsMatch, anpPortsPts
+//@   hint loop1.preserve.firstA: inv.firstA, inv.firstD, inv.firstP, inv.covered, call2.applied, call2.valid
+//@   hint loop1.preserve.firstD: inv.firstA, inv.firstD, inv.firstP, inv.covered, call2.applied, call2.valid
+//@   hint loop1.preserve.firstP: inv.firstA, inv.firstD, inv.firstP, inv.covered, call2.applied, call2.valid
+//@   hint loop1.preserve.covered: inv.covered, call2.applied, call2.valid
+//@   requires anpIngOK(anp) && realPeer(src) && realDst(dst) && dyntype(dst, *PodPeer)
+//@   modifies *
+//@   ensures [C02] wf: res1 == nil ==> (wfPC(res0) && disjPC(res0))
+//@   ensures [C02] firstwins: res1 == nil ==> anpIngVerdicts(res0, anp, len(anp.Spec.Ingress), src, dst)
+//@   loop 1 cut:
+//@     invariant wf: wfPC(res) && disjPC(res) && anpIngOK(anp)
+//@     invariant firstA: anpIngVerdictA(res, anp, rangeindex + 1, src, dst)
+//@     invariant firstD: anpIngVerdictD(res, anp, rangeindex + 1, src, dst)
+//@     invariant firstP: anpIngVerdictP(res, anp, rangeindex + 1, src, dst)
+//@     invariant covered: forall q v1.Protocol, n int :: {iset(res.AllowedConns.AllowedProtocols[q].Ports)[n]} {iset(res.DeniedConns.AllowedProtocols[q].Ports)[n]} {iset(res.PassConns.AllowedProtocols[q].Ports)[n]}
+//@         (!pts(res.AllowedConns, q, n) && !pts(res.DeniedConns, q, n) && !pts(res.PassConns, q, n)) ==>
+//@         (forall j int :: {anp.Spec.Ingress[j]} (0 <= j && j <= rangeindex) ==> !anpIngCap(anp, j, src, dst, q, n))
+
+// the same for egress rules (the other end and the port owner are both dst)
+//@ fun anpEgCap(anp *AdminNetworkPolicy, k int, dst Peer, q string, n int) bool =
+//@     (exists i int :: {anp.Spec.Egress[k].To[i]} 0 <= i && i < len(anp.Spec.Egress[k].To) && anpFieldsMatch(anp.Spec.Egress[k].To[i].Namespaces, anp.Spec.Egress[k].To[i].Pods, dst))
+//@     && anpPortsPts(anp.Spec.Egress[k].Ports, dst, q, n)
+//@ fun anpEgFirst(anp *AdminNetworkPolicy, k int, dst Peer, q string, n int) bool = anpEgCap(anp, k, dst, q, n)
+//@     && (forall j int :: {anp.Spec.Egress[j]} (0 <= j && j < k) ==> !anpEgCap(anp, j, dst, q, n))
+//@ pred anpEgOK(anp *AdminNetworkPolicy) = anp != nil && (forall k int :: {anp.Spec.Egress[k]} (0 <= k && k < len(anp.Spec.Egress)) ==> validAPs(anp.Spec.Egress[k].Ports))
+
+//@ pred anpEgVerdictA(pc *PolicyConnections, anp *AdminNetworkPolicy, m int, dst Peer) = forall q v1.Protocol, n int :: {iset(pc.AllowedConns.AllowedProtocols[q].Ports)[n]}
+//@     pts(pc.AllowedConns, q, n) == (exists k int :: {anp.Spec.Egress[k]} 0 <= k && k < m && anp.Spec.Egress[k].Action == "Allow" && anpEgFirst(anp, k, dst, q, n))
+//@ pred anpEgVerdictD(pc *PolicyConnections, anp *AdminNetworkPolicy, m int, dst Peer) = forall q v1.Protocol, n int :: {iset(pc.DeniedConns.AllowedProtocols[q].Ports)[n]}
+//@     pts(pc.DeniedConns, q, n) == (exists k int :: {anp.Spec.Egress[k]} 0 <= k && k < m && anp.Spec.Egress[k].Action == "Deny" && anpEgFirst(anp, k, dst, q, n))
+//@ pred anpEgVerdictP(pc *PolicyConnections, anp *AdminNetworkPolicy, m int, dst Peer) = forall q v1.Protocol, n int :: {iset(pc.PassConns.AllowedProtocols[q].Ports)[n]}
+//@     pts(pc.PassConns, q, n) == (exists k int :: {anp.Spec.Egress[k]} 0 <= k && k < m && anp.Spec.Egress[k].Action == "Pass" && anpEgFirst(anp, k, dst, q, n))
+//@ pred anpEgVerdicts(pc *PolicyConnections, anp *AdminNetworkPolicy, m int, dst Peer) = anpEgVerdictA(pc, anp, m, dst) && anpEgVerdictD(pc, anp, m, dst) && anpEgVerdictP(pc, anp, m, dst)
+
+//@ func (*AdminNetworkPolicy).GetEgressPolicyConns
+//@   hide anpFieldsMatch, anpPortsPts
+//@   hint loop1.preserve.firstA: inv.firstA, inv.firstD, inv.firstP, inv.covered, call2.applied, call2.valid
+//@   hint loop1.preserve.firstD: inv.firstA, inv.firstD, inv.firstP, inv.covered, call2.applied, call2.valid
+//@   hint loop1.preserve.firstP: inv.firstA, inv.firstD, inv.firstP, inv.covered, call2.applied, call2.valid
+//@   hint loop1.preserve.covered: inv.covered, call2.applied, call2.valid
+//@   requires anpEgOK(anp) && realPeer(dst) && realDst(dst) && dyntype(dst, *PodPeer)
+//@   modifies *
+//@   ensures [C02] wf: res1 == nil ==> (wfPC(res0) && disjPC(res0))
+//@   ensures [C02] firstwins: res1 == nil ==> anpEgVerdicts(res0, anp, len(anp.Spec.Egress), dst)
+//@   loop 1 cut:
+//@     invariant wf: wfPC(res) && disjPC(res) && anpEgOK(anp)
+//@     invariant firstA: anpEgVerdictA(res, anp, rangeindex + 1, dst)
+//@     invariant firstD: anpEgVerdictD(res, anp, rangeindex + 1, dst)
+//@     invariant firstP: anpEgVerdictP(res, anp, rangeindex + 1, dst)
+//@     invariant covered: forall q v1.Protocol, n int :: {iset(res.AllowedConns.AllowedProtocols[q].Ports)[n]} {iset(res.DeniedConns.AllowedProtocols[q].Ports)[n]} {iset(res.PassConns.AllowedProtocols[q].Ports)[n]}
+//@         (!pts(res.AllowedConns, q, n) && !pts(res.DeniedConns, q, n) && !pts(res.PassConns, q, n)) ==>
+//@         (forall j int :: {anp.Spec.Egress[j]} (0 <= j && j <= rangeindex) ==> !anpEgCap(anp, j, dst, q, n))
